@@ -24,6 +24,9 @@ pub struct Swarm {
     pub nullable: bool,
     pub inline: bool,
     pub formats: bool,
+    /// property names / enum values that need escaping or sanitising, or that
+    /// sanitise to the same Rust identifier
+    pub awkward: bool,
     /// 0 none, 1 valid only, 2 valid and invalid
     pub defaults: u8,
     /// 0 no back references, 1 some, 2 many
@@ -68,6 +71,7 @@ impl Swarm {
             nullable: rng.chance(2, 3),
             inline: rng.chance(1, 2),
             formats: rng.chance(1, 2),
+            awkward: false,
             defaults: *rng.pick(&[0u8, 0, 1, 1, 1]),
             cycles: *rng.pick(&[0u8, 0, 1, 1, 2]),
             shuffle_within_component: false,
@@ -109,6 +113,11 @@ impl Swarm {
                 s.defaults = *rng.pick(&[0u8, 1]);
             }
         }
+        s.awkward = match focus {
+            Focus::Compile => rng.chance(1, 2),
+            Focus::Fixtures | Focus::FixturesBig => false,
+            _ => rng.chance(1, 4),
+        };
         if s.relation.is_some() {
             // relations compare like with like: see DESIGN §3.4
             s.readd = false;
@@ -131,6 +140,95 @@ const PROPS: &[&str] = &[
 ];
 const ENUM_VALUES: &[&str] = &["red", "green", "blue", "north", "south", "east", "west", "up", "down"];
 const INT_FORMATS: &[&str] = &["uint8", "uint16", "uint32", "uint64", "int8", "int16", "int32", "int64"];
+
+/// Names with no identifier character at all (they sanitise to the empty string).
+const EMPTY_NAMES: &[&str] = &["", "*", "$", "@", "-", " "];
+/// Keywords and names that need a prefix, escaping or re-casing.
+const ODD_NAMES: &[&str] = &["type", "ref", "match", "Self", "1st", "a b", "+1", "with-dash", "fooBar", "impl", "Mixed_Case", "x"];
+
+/// String-enum values / variant names. With `awkward` names one stress pattern
+/// is applied: a value that sanitises to nothing, two values that sanitise to
+/// one identifier with another value between them (typify tells them apart by
+/// spelling the elided character), keywords and values that need a prefix.
+fn enum_values(rng: &mut Rng, sw: &Swarm, lo: usize, hi: usize) -> Vec<String> {
+    let mut vals: Vec<&str> = ENUM_VALUES.to_vec();
+    rng.shuffle(&mut vals);
+    vals.truncate(rng.range(lo, hi));
+    let mut vals: Vec<String> = vals.into_iter().map(|v| v.to_string()).collect();
+    if sw.awkward && rng.chance(1, 2) {
+        match rng.below(4) {
+            0 => {
+                let i = rng.below(vals.len());
+                vals[i] = rng.pick(EMPTY_NAMES).to_string();
+            }
+            1 => {
+                // colliding after case conversion, adjacent or not
+                let (a, b) = *rng.pick(&[("foo_bar", "fooBar"), ("fooBar", "foo_bar"), ("half-open", "halfOpen"), ("a_b", "aB")]);
+                if rng.chance(1, 3) {
+                    vals.insert(0, b.to_string());
+                    vals.insert(0, a.to_string());
+                } else {
+                    vals.insert(0, a.to_string());
+                    vals.push(b.to_string());
+                }
+            }
+            _ => {
+                let n = rng.range(1, 2);
+                for _ in 0..n {
+                    let v = rng.pick(ODD_NAMES).to_string();
+                    if !vals.contains(&v) {
+                        let i = rng.below(vals.len());
+                        vals[i] = v;
+                    }
+                }
+            }
+        }
+    }
+    vals
+}
+
+/// Property names of one object. With `awkward` names some need escaping
+/// (keywords), a prefix, or sanitise to the same field name as a sibling; the
+/// flag says that the property belongs to such a group and takes a scalar type
+/// (inline named types of colliding siblings would also share ONE type name,
+/// which typify resolves by re-using the first type: a different question).
+fn prop_names(rng: &mut Rng, sw: &Swarm, n: usize) -> Vec<(String, bool)> {
+    let mut names: Vec<&str> = PROPS.to_vec();
+    rng.shuffle(&mut names);
+    names.truncate(n);
+    let mut names: Vec<(String, bool)> = names.into_iter().map(|v| (v.to_string(), false)).collect();
+    if sw.awkward && n > 0 && rng.chance(1, 2) {
+        match rng.below(5) {
+            0 => {
+                // two or three names that sanitise to one field name
+                let group: &[&str] = *rng.pick(&[
+                    &["fooBar", "foo_bar"][..],
+                    &["foo-bar", "fooBar", "foo_bar"][..],
+                    &["$", "*"][..],
+                    &["", "@"][..],
+                    &["Self", "self"][..],
+                    &["a_b", "aB"][..],
+                ]);
+                for g in group {
+                    names.push((g.to_string(), true));
+                }
+            }
+            1 => names.push((rng.pick(EMPTY_NAMES).to_string(), false)),
+            2 => names.push(("extra".to_string(), false)),
+            _ => {
+                for _ in 0..rng.range(1, 2) {
+                    let v = rng.pick(ODD_NAMES).to_string();
+                    if !names.iter().any(|(n, _)| n == &v) {
+                        names.push((v, false));
+                    }
+                }
+            }
+        }
+    }
+    names.sort();
+    names.dedup_by(|a, b| a.0 == b.0);
+    names
+}
 
 fn r(name: &str) -> Value {
     json!({ "$ref": format!("#/definitions/{name}") })
@@ -221,9 +319,7 @@ fn gen_type(rng: &mut Rng, cx: &mut Ctx, depth: u32, in_property: bool) -> Value
             _ => json!({"type": ["boolean", "null"]}),
         },
         8 if cx.sw.enums && (in_property || rng.chance(1, 2)) => {
-            let mut vals: Vec<&str> = ENUM_VALUES.to_vec();
-            rng.shuffle(&mut vals);
-            vals.truncate(rng.range(2, 4));
+            let vals = enum_values(rng, cx.sw, 2, 4);
             let mut e = json!({"type": "string", "enum": vals});
             if !in_property {
                 cx.titles += 1;
@@ -245,15 +341,12 @@ fn gen_type(rng: &mut Rng, cx: &mut Ctx, depth: u32, in_property: bool) -> Value
 
 fn gen_object(rng: &mut Rng, cx: &mut Ctx, depth: u32, lo: usize, hi: usize) -> Value {
     let n = rng.range(lo, hi);
-    let mut names: Vec<&str> = PROPS.to_vec();
-    rng.shuffle(&mut names);
-    names.truncate(n);
-    names.sort();
+    let names = prop_names(rng, cx.sw, n);
     let mut props = Map::new();
     let mut required = Vec::new();
-    for p in names {
-        let t = gen_type(rng, cx, depth, true);
-        props.insert(p.to_string(), t);
+    for (p, scalar) in names {
+        let t = if scalar { gen_scalar(rng, cx.sw) } else { gen_type(rng, cx, depth, true) };
+        props.insert(p.clone(), t);
         if rng.chance(3, 5) {
             required.push(json!(p));
         }
@@ -285,10 +378,7 @@ fn gen_object(rng: &mut Rng, cx: &mut Ctx, depth: u32, lo: usize, hi: usize) -> 
 }
 
 fn gen_tagged_enum(rng: &mut Rng, cx: &mut Ctx) -> Value {
-    let nv = rng.range(2, 3);
-    let mut vnames: Vec<&str> = ENUM_VALUES.to_vec();
-    rng.shuffle(&mut vnames);
-    vnames.truncate(nv);
+    let vnames = enum_values(rng, cx.sw, 2, 3);
     let style = rng.below(5);
     let mut variants = Vec::new();
     match style {
@@ -376,9 +466,7 @@ fn gen_tagged_enum(rng: &mut Rng, cx: &mut Ctx) -> Value {
             // untagged: alternatives of distinct JSON types; the string alternative
             // is sometimes an inline string enum (a named sub-type of the enum)
             if cx.sw.enums && rng.chance(1, 2) {
-                let mut vals: Vec<&str> = ENUM_VALUES.to_vec();
-                rng.shuffle(&mut vals);
-                vals.truncate(rng.range(2, 3));
+                let vals = enum_values(rng, cx.sw, 2, 3);
                 variants.push(json!({"type": "string", "enum": vals}));
             } else {
                 variants.push(json!({"type": "string"}));
@@ -402,9 +490,7 @@ fn gen_definition(rng: &mut Rng, cx: &mut Ctx) -> Value {
         match *rng.pick(kinds) {
             0 => return gen_object(rng, cx, 0, 1, 4),
             1 if cx.sw.enums => {
-                let mut vals: Vec<&str> = ENUM_VALUES.to_vec();
-                rng.shuffle(&mut vals);
-                vals.truncate(rng.range(2, 4));
+                let vals = enum_values(rng, cx.sw, 2, 4);
                 return json!({"type": "string", "enum": vals});
             }
             2 if cx.sw.tagged => return gen_tagged_enum(rng, cx),
